@@ -47,6 +47,9 @@ func init() {
 	extSchemas["math/bits.Div64"] = schemaDiv64
 	extSchemas["strconv.AppendUint"] = schemaAppendUint
 	extSchemas["strconv.FormatUint"] = schemaFormatUint
+	extSchemas["strconv.AppendInt"] = schemaAppendInt
+	extSchemas["strconv.FormatInt"] = schemaFormatInt
+	extSchemas["strconv.Itoa"] = schemaItoa
 	extSchemas["strconv.Atoi"] = schemaAtoi
 	extSchemas["strconv.ParseUint"] = schemaParseUint
 	extSchemas["(*regexp.Regexp).FindSubmatch"] = schemaFindSubmatch
@@ -578,6 +581,41 @@ func schemaAppendUint(x *Exec, st *State, fn *ssa.Function, args []Val, c *ssa.C
 		x.fail("strconv.AppendUint: only base 10 is modelled")
 	}
 	return x.appendSeq(st, dst, x.digitsOf(args[1].(*Term), 10, 20, 0, true))
+}
+
+// strconv.AppendInt / FormatInt / Itoa (base 10): an optional '-' and the digits of the absolute value, exactly as
+// fmt's %d (the code under contract uses none of them today; they are here so that a change from the unsigned to the
+// signed functions is decided - refuted with an input - rather than reported as outside the subset).
+func (x *Exec) signedPieces(v *Term, base Val, what string) []StrVal {
+	b, ok := base.(*Term).ConstInt64()
+	if !ok || b != 10 {
+		x.fail("%s: only base 10 is modelled", what)
+	}
+	return x.formatOne(fmtPiece{verb: 'd'}, v, IntTy{W: 64, Signed: true})
+}
+
+func schemaAppendInt(x *Exec, st *State, fn *ssa.Function, args []Val, c *ssa.CallCommon) Val {
+	cur := args[0].(SliceVal)
+	for _, piece := range x.signedPieces(args[1].(*Term), args[2], "strconv.AppendInt") {
+		cur = x.appendSeq(st, cur, piece)
+	}
+	return cur
+}
+
+func schemaFormatInt(x *Exec, st *State, fn *ssa.Function, args []Val, c *ssa.CallCommon) Val {
+	ps := x.signedPieces(args[0].(*Term), args[1], "strconv.FormatInt")
+	if len(ps) == 1 {
+		return ps[0]
+	}
+	return x.strConcat(st, ps[0], ps[1])
+}
+
+func schemaItoa(x *Exec, st *State, fn *ssa.Function, args []Val, c *ssa.CallCommon) Val {
+	ps := x.signedPieces(args[0].(*Term), x.o.Int(10), "strconv.Itoa")
+	if len(ps) == 1 {
+		return ps[0]
+	}
+	return x.strConcat(st, ps[0], ps[1])
 }
 
 func schemaFormatUint(x *Exec, st *State, fn *ssa.Function, args []Val, c *ssa.CallCommon) Val {
